@@ -7,7 +7,7 @@ import itertools
 import vlib
 
 # until the files are listed in coq/_CoqProject the proof modules are compiled by hand (see report)
-PROOF_MODULES = []
+PROOF_MODULES = ["C46/LdeProofs.vo"]
 OBLIGATIONS = [
     "C46/P_lde_sound.v", "C46/P_lde_indices_in_bounds.v", "C46/P_lde_antichain.v",
     "C46/P_lde_complete.v", "C46/P_lde_exact.v", "C46/P_lde_fuel_mono.v",
@@ -51,7 +51,8 @@ CORPUS = [
     case([[0]], 1), case([[2]], 1), case([], 2), case([[]], 0), case([], 0),
     case([[0, 0], [0, 0]], 2),
     case([[2 ** 40, -3 * 2 ** 40, 2 ** 40]], 3),        # huge entries (dot products beyond 64 bits)
-    case([[10 ** 15, 10 ** 15, -10 ** 15, -10 ** 15], [1, -1, 1, -1]], 4),
+    case([[10 ** 15, 10 ** 15, -10 ** 15, -10 ** 15], [10 ** 15, -10 ** 15, 10 ** 15, -10 ** 15]], 4),
+    case([[2, -2, 1, 0, 1], [-1, 2, -1, 2, 2], [8, -4, 4, -8, 8]], 5),   # last row scaled by 4: 2461 iterations instead of 28
     # `basis` not empty on entry (not cleared by the function; equal vectors pass is_minimum)
     case([[1, -1]], 2, [[1, 1]]), case([[1, -1]], 2, [[2, 2]]), case([[1, -2]], 2, [[1, 0]]),
     case([[1, -1]], 2, [[5]]), case([[-1, 1]], 2, [[0]]), case([[-1, 1]], 2, [[]]),
@@ -95,10 +96,11 @@ def rand_matrix(rng, tier):
         rows[0] = [abs(a) for a in rows[0]]
     elif s < 0.40:                   # entries 0 / +-1 (totally-unimodular-like)
         rows = [[rng.choice([-1, 0, 1]) for _ in range(q)] for _ in range(p)]
-    elif s < 0.46:                   # huge entries: a row scaled by 2^40 / 10^15 (same solutions, multi-limb dot products)
+    elif s < 0.46:                   # huge entries: the whole matrix scaled by 2^40 / 10^15: same solutions and the same
+        # search tree (every dot product is scaled by k^2), multi-limb arithmetic.  Scaling ONE row of several
+        # keeps the solutions but makes the search tree explode (see the report), so that is not generated.
         k = rng.choice([2 ** 40, 10 ** 15, -(2 ** 33)])
-        r = rng.randrange(p)
-        rows[r] = [k * a for a in rows[r]]
+        rows = [[k * a for a in r_] for r_ in rows]
     return rows, q
 
 
@@ -178,7 +180,7 @@ def run(ctx):
     ctx.cov["distinct_nontrivial"] = len(ctx.stats["nontrivial"])
     ctx.cov["rule"] = ("integer matrices p x q (p <= 3, q <= 5, entries mostly in [-3,3], a quarter up to +-7) from one PRNG, shaped "
                        "towards the case splits of the proofs (zero / repeated / negated columns, dependent or zero rows, one-signed rows, "
-                       "0/+-1 matrices, rows scaled by 2^40 or 10^15, empty shapes), a fixed corpus, complete small universes (quick: 1x3 in [-2,2], 1x2 in [-4,4]; thorough: "
+                       "0/+-1 matrices, matrices scaled by 2^40 or 10^15, empty shapes), a fixed corpus, complete small universes (quick: 1x3 in [-2,2], 1x2 in [-4,4]; thorough: "
                        "1x2 [-6,6], 1x3 [-3,3], 1x4 [-3,3], 2x3 [-2,2], 2x4 [-1,1], 3x3 [-1,1]), and 10% calls with a non-empty `basis` on entry; "
                        "plus unit-level cases for is_minimum/order (vectors with entries 0..3, basis elements equal / below / above / random); "
                        "a case is non-trivial when the library returns at least two vectors or a vector of 1-norm >= 3 (unit level: a non-empty basis); "
